@@ -78,6 +78,15 @@ CHECKS = {
             'at least two real orders.',
             'Seam covers iteration over sets of port names; anything else nondeterministic is caught only by the real-seed '
             'child runs (demonstrated with a hash()-ordering mutant).'),
+    'C11': ('DESIGN.md 4/C11', 'stateless model checking of the compiled generated code: DFS over all thread schedules under '
+            'a cooperative scheduler with link-time interposed pthread mutexes, iterative preemption bounding, deadlock '
+            'detection; plus a separate free-running ThreadSanitizer pass',
+            'H1 (MutexWrapped, 2-3 threads, every release-mode assignment) complete for 2 threads and bound 2 for 3 (thorough: '
+            'complete); H2 (multi-client shell, legal arbiter, dispatcher, 2-3 clients, environment events) at the bounds listed '
+            'per experiment in the evidence (quick ~70 000 schedules; thorough: 2 clients unbounded, 3 clients bound 1); monitor '
+            'on every out-event; TSan pass of the same bodies.',
+            'Trusted: vf/cxx/sched.hh + interposer, scheduled mock pump, libstdc++ mapping std::mutex to pthread_mutex_*. '
+            'Memory-model effects below synchronisation operations only via TSan.'),
     'C12': ('DESIGN.md 4/C12', 'explicit-state exploration of build histories on shared input objects, replayed on fresh '
             'objects; un-pruned sweep + BFS pruned on a canonical deep snapshot incl. all module-level state',
             'All histories of <=2 (quick) / <=3 (thorough) builds over 24 operations; every build compared with a '
